@@ -441,6 +441,8 @@ class Ref:
                 if (self.pos, len(self.trace)) == p0:
                     raise Unsupported('loop iteration without progress')
         if d == 'optional_stmt':
+            if self.ended:
+                return    # end-of-input was consumed by an `end` pattern: nothing is left that the optional could match
             save = (self.pos, dict(self.vals), {k: v.copy() for k, v in self.strs.items()}, len(self.trace), self.last)
             try:
                 self.block(ch)
